@@ -9,12 +9,33 @@ PROP = dict(
         dict(module="MCSecurity", cfg="MCSecurity_asbuilt.cfg", expect_violation="PropertyHolds", timeout=300, workers=4),
     ],
     gen=dict(module="GenSecurity", cfg=dict(quick="GenSecurity_quick.cfg", thorough="GenSecurity_thorough.cfg"), timeout=900),
-    level_text="placeholder",
-    level_note="placeholder",
+    level_text="Security.tla states C02 declaratively (DoneOK: admission only through a satisfied alternative accepted by the "
+               "authorizer, principal/scopes from that alternative, anonymous only when no consulted scheme rejected, refusal with "
+               "the rejecting scheme's error / 401 / the authorizer's error and nothing else runs, OR-completeness) next to a "
+               "faithful step-by-step model of newSecureAPI / Context.Authorize / RouteAuthenticators.Authenticate / "
+               "RouteAuthenticator.Authenticate (one action per authenticator call, evaluation order nondeterministic). TLC checks "
+               "model |= property for every requirement list of <=2 (quick) / <=3 (thorough) alternatives over 3 schemes x 4^3 outcome "
+               "vectors x registrations (all / all but one) x 4 authorizer modes x every order x 4 request variants, exports the "
+               "same lattice as scripts (GenSecurity), and validates every request the driver sends through the real untyped API "
+               "handler (every script, every evaluation order, otherwise-broken requests) against the declarative property.",
+    level_note="bounded exhaustive at model level; the real code is bound by trace validation of the executed requests only "
+               "(lattice of 2 schemes/<=2 alternatives in quick, 3 schemes/<=2 and 2 schemes/<=3 alternatives in thorough, "
+               "plus seeded structures of up to 5 schemes and 4 alternatives); evaluation orders are set by permuting the "
+               "router's RouteAuthenticator.Schemes; what the handler can read is observed on the request handed to the "
+               "API's error responder; scripted authenticators/authorizer trusted",
     design_ref="DESIGN.md 4.2",
     driver="c02",
     trace=dict(module="TraceSecurity", cfg="TraceSecurity.cfg"),
-    rule="placeholder",
-    assumptions=COMMON_ASSUME,
+    rule="case = one API (requirement structure declared globally / per operation / overriding a global decoy, registrations, "
+         "authorizer mode) built once; requests = outcome vector x evaluation order x variant (good, missing required query "
+         "parameter, unsupported Content-Type, unacceptable Accept). Exhaustive part: every script of the GenSecurity lattice "
+         "in every evaluation order; plus 5 hand-written corner structures x all outcome vectors, and seeded random "
+         "structures (400 / 4000). Non-trivial: at least one authenticator was consulted in the case; distinct by hash of the case.",
+    assumptions=COMMON_ASSUME + [
+        "an authenticator's outcome for a request does not change between two consultations within the same request",
+        "'yielding a non-nil principal' is read per alternative (LastPrincipalWins): an alternative in which one scheme accepts "
+        "with a nil principal may or may not admit, depending on the evaluation order",
+        "'a scheme rejected credentials' is read as 'a consulted scheme did' (ShortCircuit)",
+    ],
     exhaustive=True,
 )
